@@ -5,6 +5,7 @@ specs/codec/MatBinary.tla    the 40-byte header of mat's binary form and the dec
 specs/codec/RdfIso.tla       datasets as sets of quads, isomorphism by brute force over blank-node bijections
 specs/codec/DotAbstract.tla  abstract DOT structure over a quoting-hostile string pool (round trip = identity)
 specs/codec/NQuadsAbstract.tla  abstract N-Quads statement content over hostile literal texts (print then parse = identity)
+specs/codec/TokenCorrupt.tla  single-token corruptions of DOT / N-Quads documents (decoder totality only)
 specs/codec/HllState.tla     HyperLogLog sketch state, Marshal/Unmarshal/Union/SetHash rules, malformed-field grid
 specs/codec/PrngStream.tla   generator = place in a reference stream; PrngStreamTrace.tla validates recorded histories
 
@@ -122,6 +123,14 @@ def run_nquads(ctx, bins):
             ctx.replay(b, "codec-nquads", cases, name="R2 replay nquads %s [%s]" % (mode, bn))
 
 
+def run_total(ctx, bins):
+    for fam in ("dot", "nq"):
+        cases = ctx.gen("codec/TokenCorrupt.tla", "codec/TokenCorrupt.cfg", subst=dict(FAMILY=fam, EMIT="TRUE"),
+                        name="R1+R2 gen token corruptions of %s documents (delete/duplicate/transpose/substitute/insert/truncate)" % fam)
+        for bn, b in bins.items():
+            ctx.replay(b, "codec-total", cases, name="R2 replay decoder totality %s [%s]" % (fam, bn))
+
+
 def run_hll(ctx, bins):
     for w in (64, 32):
         cases = ctx.gen("codec/HllState.tla", "codec/HllState.cfg",
@@ -159,6 +168,7 @@ def run(ctx):
     run_rdf(ctx, bins)
     run_dot(ctx, bins)
     run_nquads(ctx, bins)
+    run_total(ctx, bins)
     run_hll(ctx, bins)
     run_prng(ctx, bins)
 
